@@ -81,6 +81,15 @@ fn string_of(t: &mut Tape, len: usize, alpha: &[char], prefix: &str) -> String {
         }
         n += 1;
     }
+    // filler: plain ASCII, or a multi-byte character repeated so that long strings contain
+    // multi-byte sequences at every offset class (chunked validators, boundary arithmetic)
+    let filler: char = if len - s.len() >= 8 { ['x', 'x', '\u{e9}', '\u{20ac}', '\u{1F600}'][t.pick(5)] } else { 'x' };
+    if filler != 'x' && t.flag() && s.len() < len {
+        s.push('y'); // shifts the multi-byte characters onto odd offsets
+    }
+    while s.len() + filler.len_utf8() <= len {
+        s.push(filler);
+    }
     while s.len() < len {
         s.push('x');
     }
